@@ -171,6 +171,12 @@ pub fn run() -> i32 {
             q3.push(BasicRule { input: i.clone(), output: o.clone(), context: vec![], except: vec![a.clone(), b.clone()] });
         } } }
         run_box(&mut r, "Q3: environment sets of two c=1 environments, both orders, `a > i`, W(I3,4)", q3, &w34);
+        // a context together with an exception (one item per side each): the two are matched independently, each with its own sides
+        let mut q5 = vec![];
+        for (i, o) in [(ins[2].clone(), outs[1].clone()), (ins[5].clone(), outs[2].clone())] { for c in &e1s { for x in &e1s {
+            q5.push(BasicRule { input: i.clone(), output: o.clone(), context: vec![c.clone()], except: vec![x.clone()] });
+        } } }
+        run_box(&mut r, "Q5: context c=1 x exception c=1, `a > i` and `C > [+voice]`, W(I3,4)", q5, &w34);
         run_box(&mut r, "Q4: sets with boundary members as the outermost item of a side (alone and after one item), context / exception / both sides", boundary_set_rules(&ins, &outs), &w34);
     } else {
         let w35 = word_space(&inventory(3), 5);
